@@ -685,6 +685,16 @@ func RunC13(tier string) int {
 	if thorough {
 		runDeadline = time.Now().Add(25 * time.Minute)
 	}
+	// E4 (map iteration orders) is run on a spread of these worlds afterwards
+	var mapArgs []any
+	var mapDesc []string
+	mapWorlds, mapStride := 250, 1
+	if thorough {
+		mapWorlds, mapStride = 3000, 7
+	}
+	if groups > 0 && groups/mapWorlds > mapStride {
+		mapStride = groups / mapWorlds
+	}
 	// Worlds are processed in chunks (whole groups): arguments and observations of a
 	// chunk are dropped before the next one starts, so memory stays bounded.
 	allJobs := jobs
@@ -739,6 +749,10 @@ func RunC13(tier string) int {
 			b, ok := first[j.group]
 			if !ok {
 				first[j.group] = i
+				if len(mapArgs) < mapWorlds && (j.group%mapStride == 0) {
+					mapArgs = append(mapArgs, args[i])
+					mapDesc = append(mapDesc, j.sc.String())
+				}
 				o := obs[i]
 				if !o.ok {
 					rep.Violation("sourcebundle.Builder/spurious-error", j.sc.String()+" :: "+o.errs, "build", args[i])
@@ -790,10 +804,34 @@ func RunC13(tier string) int {
 	rep.Extra["worlds"] = groups
 	rep.Extra["worlds_completed"] = groupsDone
 	rep.Extra["builds"] = rep.Evaluations
+	{
+		bound := 1
+		if thorough {
+			bound = 2
+		}
+		st := &mapOrdStats{}
+		exploreMapOrders(0, "build", mapArgs, bound, func(i int, raw json.RawMessage) string {
+			var out BuildOut
+			if err := json.Unmarshal(raw, &out); err != nil {
+				return "UNPARSABLE " + err.Error()
+			}
+			o := observeC13(out)
+			meta := ""
+			if out.Bundle != nil {
+				meta = fmt.Sprint(out.Bundle.Meta, out.Bundle.RegSrc, out.Bundle.RegDep, out.Bundle.RegVers, out.Bundle.Packages, out.Bundle.RegPkgs)
+			}
+			return fmt.Sprintf("ok=%v errs=%s listing=%s checksum=%s lookups=%s meta=%s manifest=%s", o.ok, o.errs, o.listing, o.checksum, o.lookups, meta, o.manifest)
+		}, func(i int, choices []int, base, got string, arg MapOrdArg) {
+			rep.Violation("sourcebundle.Builder/result-depends-on-map-iteration-order", fmt.Sprintf("%s :: with map orders %v the observable result differs from the canonical order: %s", mapDesc[i], choices, firstDiff(base, got)), "mapord", arg)
+		}, st)
+		rep.Evaluations += st.Runs
+		rep.Extra["map_orders"] = st.summary()
+		fmt.Printf("  map-order part: worlds=%d runs=%d choice points=%d differing=%d\n", st.Tasks, st.Runs, st.Points, st.Differing)
+	}
 	if sc13 != nil {
 		sc13(rep, tier)
 	}
-	rep.Rule = "for every world (set of 2..3/4 distinct Add calls × reachable edge sets of <=1/2 edges — sets of four Adds: <=1 edge —, error-free by the reference closure): all permutations of the Add calls × both orders of every finder's edge list, each built by the real Builder; observables (top-level listing, manifest bytes, ChecksumV1, lookup table) must equal those of the first order; coalescing: two packages share a directory iff they have the same {file path -> bytes} (content twins, a twin with one extra file, a twin with one changed byte). Schedules: see sched part. Non-trivial/distinct = distinct manifests."
+	rep.Rule = "for every world (set of 2..3/4 distinct Add calls × reachable edge sets of <=1/2 edges — sets of four Adds: <=1 edge —, error-free by the reference closure): all permutations of the Add calls × both orders of every finder's edge list, each built by the real Builder; observables (top-level listing, manifest bytes, ChecksumV1, lookup table) must equal those of the first order; coalescing: two packages share a directory iff they have the same {file path -> bytes} (content twins, a twin with one extra file, a twin with one changed byte). Map orders (E4): on a spread of these worlds every range-over-map statement the library executes is a choice point; all single (thorough: double) deviations from the canonical order must leave the observables unchanged. Schedules: see sched part. Non-trivial/distinct = distinct manifests."
 	return rep.Finish()
 }
 
